@@ -16,7 +16,7 @@ func init() {
 func u64(s string) uint64 {
 	v, err := strconv.ParseUint(s, 10, 64)
 	if err != nil {
-		panic("bad uint in case line: " + s)
+		panic(badCase("bad uint in case line: " + s))
 	}
 	return v
 }
@@ -153,7 +153,7 @@ func evalC10Inner(op string, args []string) string {
 	case "date":
 		sec, err := strconv.ParseInt(args[0], 10, 64)
 		if err != nil {
-			panic("bad int in case line")
+			panic(badCase("bad int in case line"))
 		}
 		ns := atoi(args[1])
 		if ns < 0 || ns > 999999999 {
